@@ -30,6 +30,7 @@ type FieldCase struct {
 	Null0   bool          // list kinds of numbers: the first element of the input is null
 	PreVar  int           // pre-filled value: 0 the usual one, 1 the zero value, 2 a negative one
 	Ref     bool          // the setting is a reference "${zref<N>}" to a top-level setting holding the value (VarExp)
+	Ref2    bool          // ... which is itself a reference to the setting holding the value
 }
 
 // StructCase is the plan for a struct value.
@@ -133,6 +134,7 @@ func (g *gen) genCase(s *Struct, path string, depth int) *StructCase {
 		}
 		if g.varexp && refable(f.Kind) && fc.Mention && t.Chance(1, 3, "by-reference") {
 			fc.Ref = true
+			fc.Ref2 = t.Chance(1, 3, "reference-chain")
 			g.r.Probe("unpack: setting spelled as a reference to another setting")
 		}
 		switch f.Kind {
@@ -216,7 +218,12 @@ func (fc *FieldCase) input() interface{} {
 func (sc *StructCase) refs(out map[string]interface{}) {
 	for _, fc := range sc.Fields {
 		if fc.Ref {
-			out[fc.refName()] = fc.In
+			if fc.Ref2 {
+				out[fc.refName()] = "${zz" + fc.refName() + "}"
+				out["zz"+fc.refName()] = fc.In
+			} else {
+				out[fc.refName()] = fc.In
+			}
 		}
 		if fc.Sub != nil {
 			fc.Sub.refs(out)
